@@ -65,6 +65,9 @@ pub struct CEntry {
     /// booking date written as DtTm too
     #[serde(default)]
     pub booking_datetime: bool,
+    /// `<RvslInd>` written with this value
+    #[serde(default)]
+    pub reversal_ind: Option<bool>,
 }
 
 #[derive(Clone, Debug, PartialEq, Eq, Serialize, Deserialize, Hash)]
@@ -130,7 +133,12 @@ pub fn render_xml(sc: &Sc, st: &Stmt) -> String {
     let entries: Vec<&CEntry> = if sc.new_to_old { st.entries.iter().rev().collect() } else { st.entries.iter().collect() };
     for e in entries {
         let ind = if e.credit { "CRDT" } else { "DBIT" };
-        s.push_str(&format!("<Ntry>\n<Amt Ccy=\"{}\">{}</Amt><CdtDbtInd>{}</CdtDbtInd><Sts>BOOK</Sts>\n", c, e.amount, ind));
+        // RvslInd only tells that the entry reverses an earlier one; CdtDbtInd already is its direction
+        let rvsl = match e.reversal_ind {
+            Some(b) => format!("<RvslInd>{}</RvslInd>", b),
+            None => String::new(),
+        };
+        s.push_str(&format!("<Ntry>\n<Amt Ccy=\"{}\">{}</Amt><CdtDbtInd>{}</CdtDbtInd>{}<Sts>BOOK</Sts>\n", c, e.amount, ind, rvsl));
         let time = if e.time.is_empty() { "T10:20:30+01:00" } else { e.time.as_str() };
         if e.booking_datetime {
             s.push_str(&format!("<BookgDt><DtTm>{}{}</DtTm></BookgDt>\n", e.booking.iso(), time));
@@ -479,7 +487,8 @@ pub fn gen_sc(rng: &mut Rng, hostile: bool, multi: bool) -> Sc {
     let currency = ["CHF", "EUR", "USD"][rng.usize(3)].to_string();
     let n_stmts = if multi { 1 + rng.usize(3) } else { 1 };
     let mut statements = Vec::new();
-    let mut opening = Dec::new(rng.range(-50_000, 500_000), 2);
+    // (a brand-new account opens at exactly zero: the opening-balance transaction is still due)
+    let mut opening = if rng.chance(1, 8) { Dec::new(0, 2) } else { Dec::new(rng.range(-50_000, 500_000), 2) };
     let mut date = Date::new(2024, 1, 1 + rng.below(10) as u32);
     let name = |rng: &mut Rng| -> String {
         if hostile && rng.chance(1, 2) {
@@ -554,7 +563,13 @@ pub fn gen_sc(rng: &mut Rng, hostile: bool, multi: bool) -> Sc {
                 1 => Some(date.plus_days(rng.range(-2, 2))),
                 _ => Some(date),
             };
+            let reversal_ind = match rng.below(8) {
+                0 => Some(true),
+                1 => Some(false),
+                _ => None,
+            };
             entries.push(CEntry {
+                reversal_ind,
                 amount,
                 credit,
                 booking: date,
